@@ -16,7 +16,7 @@ from spec import frames, wgs84
 
 MANIFEST = dict(
     category="proof",
-    technique="symbolic execution of the real InsErrorModel / correct_pva / compute_state_difference / perturb_pva on pandas Series of sympy reals; left-inverse identities and zeroth/first Taylor coefficients decided in a fraction field; determinant / divisor obligations by interval arithmetic; Every claim is also checked for call history: the real code is run twice in the same symbolic world (primed inputs first; same captured objects and module state) and the second result must still meet the contract on every path a concrete witness input takes; value-dependent branches inside a claim are explored path by path. The frame obligations (C19's analysis) of the modules under contract are re-established under this property's name.",
+    technique="symbolic execution of the real InsErrorModel / correct_pva / compute_state_difference / perturb_pva on pandas Series of sympy reals; left-inverse identities and zeroth/first Taylor coefficients decided in a fraction field; determinant / divisor obligations by interval arithmetic; Every claim is also checked for call history: the real code is run twice in the same symbolic world (primed inputs first; same captured objects and module state) and the second result must still meet the contract on every path a concrete witness input takes; value-dependent branches inside a claim are explored path by path. The frame obligations (C19's analysis) of the modules under contract are re-established under this property's name.; Bounded stand-ins shared by all properties (labelled bounded, never counted as proved): the argument-form battery of the modules under contract (batches of 1 and 1200 rows, integer-typed values, labels / columns in other orders, extra labels); where the frame analysis finds state that outlives a call (a cache, a memo) the frame obligation becomes a dynamic purity contract against pristine process states; names the proofs replace by scipy contracts are checked to be bound to the library's functions (else a differential test).",
     text="For every pva with |lat|<=85, |pitch|<=85 deg and every error vector, in both altitude modes: T_io*T_oi = I is proved cell by cell (the LAPACK inverse replaced by its contract, det = -(180/pi)^3/cos(pitch) proved non-zero); T_oi is proved equal to an independent specification (NED metres, velocity with the [V x]phi term, Euler-angle Jacobian in degrees); correct_pva(pva,0)=pva; the first-order coefficient of difference(correct_pva(pva, eps x), pva) is proved to be -T_oi x, and of difference(correct(perturb(pva, eps e), eps T_io e), pva) to be 0 ('up to second order' by Taylor's theorem); the down and VD rows of T_oi are literally zero in the 2D mode and a 2D correction returns the input altitude and vertical velocity for every x.",
     note="A1-A6; scipy Rotation contracts (Euler conventions, exponential map as its Taylor polynomial of degree 2) assumed and cross-checked natively; np.linalg.inv replaced by its contract A^-1 (adjugate/det), precondition det != 0 discharged; util.to_180_range replaced by its contract (identity on (-180,180]), proved in C18; 'exactly unchanged' altitude/VD is proved over the reals here and bit-exactly in C13's trace-domain obligations.",
 )
